@@ -82,6 +82,7 @@ func init() {
 				entityCtorPasses(c)
 				sessionStoredUnderConnectionKey(c)
 				endpointPlumbingPolarity(c)
+				polarityEverywhere(c, "C04")
 			}},
 			{ID: "C04-R8", Title: "pairing messages are parsed and written in the TLV8 item layout, every piece read completely (shared with C16-R1)", Decides: "a conformant controller's messages parse however the network segments the body; the answers are TLV8", Floor: 2, Run: c16r1},
 		},
